@@ -4,7 +4,8 @@
 From Coq Require Import List Arith.
 From GB Require Import Base.Field Base.FNum Base.Tables Model.Shell Model.MomentInt Model.Overlap Model.DiffOp
   Model.OneBody Proofs.CoreSumP Proofs.CoreBlockP Proofs.CoreDiffP
-  Proofs.BlockMatP Proofs.AssembledP Proofs.AssembledOverlapP Proofs.AssembledSphP Proofs.AssembledSphOverlapP.
+  Proofs.BlockMatP Proofs.AssembledP Proofs.AssembledOverlapP Proofs.AssembledSphP Proofs.AssembledSphOverlapP
+  Proofs.CoreExamplesP Proofs.AssembledExamplesP.
 Import ListNotations.
 
 (* Cartesian bases: EVERY entry (evaluated blocks and transposed copies) is the normalised contracted
@@ -36,3 +37,24 @@ Theorem C02_kinetic_mixed_is_cart_transformed :
           (kinetic_integral K (map to_cart bs) None) []) (f0 K)).
 Proof. exact (fun F K Kf Hapx H2 => kinetic_mixed_is_cart_transformed K Kf Hapx H2). Qed.
 Print Assumptions C02_kinetic_mixed_is_cart_transformed.
+
+(* the hypotheses are satisfiable: the Qc bases of Props/C01_assembled.v (Cartesian: d K=2 M=2, p, contracted s;
+   mixed: the same with the d and s shells spherical) *)
+Example C02_assembled_hypotheses_Qc :
+  forall opi osqrt oexp oln oboys,
+  let K := Proofs.CoreExamplesP.KQ opi osqrt oexp oln oboys in
+  (is_field K /\ (forall x, fapx K x = x) /\ fadd K (f1 K) (f1 K) <> f0 K
+   /\ cart_basis Proofs.AssembledExamplesP.ex_basis /\ basis_wf Proofs.AssembledExamplesP.ex_basis
+   /\ basis_exps K Proofs.AssembledExamplesP.ex_basis Proofs.AssembledExamplesP.ex_basis
+   /\ btotal K Proofs.AssembledExamplesP.ex_basis = 16
+   /\ gidx K Proofs.AssembledExamplesP.ex_basis 0 1 4 = 10 /\ gidx K Proofs.AssembledExamplesP.ex_basis 1 0 2 = 14)
+  /\ ((forall s, In s Proofs.AssembledExamplesP.ex_mixed -> 0 < nseg s) /\ basis_wf Proofs.AssembledExamplesP.ex_mixed
+      /\ basis_exps K Proofs.AssembledExamplesP.ex_mixed Proofs.AssembledExamplesP.ex_mixed
+      /\ ototal K Proofs.AssembledExamplesP.ex_mixed = 14).
+Proof.
+  exact (fun opi osqrt oexp oln oboys =>
+    conj (Proofs.AssembledExamplesP.assembled_hypotheses_satisfiable opi osqrt oexp oln oboys)
+      (match Proofs.AssembledExamplesP.mixed_hypotheses_satisfiable opi osqrt oexp oln oboys with
+       | conj a (conj b (conj c (conj d _))) => conj a (conj b (conj c d)) end)).
+Qed.
+Print Assumptions C02_assembled_hypotheses_Qc.
